@@ -2,7 +2,7 @@
 from ..runner import Harness
 from ..pse import truth
 
-ALL = ["c4", "md5", "xxh64", "sha1"]
+ALL = ["md5", "xxh64", "c4", "sha1"]
 
 
 def scenario(G, K, mode):
@@ -95,7 +95,7 @@ def b_notes(b):
 def harnesses(tier):
     hs = []
     if tier == "quick":
-        cfg = [(3, 3, "folder"), (2, 3, "sf"), (2, 2, "nested")]
+        cfg = [(3, 3, "folder"), (4, 2, "folder"), (2, 3, "sf"), (2, 2, "nested")]
     else:
         cfg = [(4, 3, "folder"), (3, 4, "folder"), (3, 3, "sf"), (3, 3, "nested")]
     for G, K, mode in cfg:
